@@ -467,7 +467,7 @@ M("c07-generic-handler-swallows-limits", ["C01"], VM,
   "        except JSError as e:",
   [("C01", "C01-R6", "_run_opcode")])
 M("c07-syntax-error-not-converted", ["C07", "C19"], VM,
-  "        except JSError as e:\n            # Any other engine error raised while running (a SyntaxError from\n            # eval, new Function, JSON.parse or new RegExp, an error from a\n            # nested evaluation) is catchable by an enclosing try/catch\n            if not self.exception_handlers:\n                raise\n            self._handle_python_exception(e.name, e.message)\n",
+  "        except JSError as e:\n            # Any other engine error raised while running (a SyntaxError from\n            # eval, new Function, JSON.parse or new RegExp, an error from a\n            # nested evaluation) is catchable by an enclosing try/catch\n            if not self.exception_handlers:\n                raise\n            if hasattr(e, \"thrown\"):\n                # What a nested evaluation threw and did not catch: the value\n                # itself goes on to the handler, not an error made from its text\n                self._throw(e.thrown)\n            else:\n                self._handle_python_exception(e.name, e.message)\n",
   "",
   [("C07", "C07-R5", "JSSyntaxError"), ("C19", "C19-R2", "JSSyntaxError")])
 M("c09-lookahead-shallow-snapshot", ["C09"], RV,
@@ -559,8 +559,8 @@ M("c07-call-reenters-full-loop-again", ["C07", "C08"], VM,
   "        self._invoke_js_function(func, args, this_val)\n        return self._execute()\n",
   [("C07", "C07-R3$", "reenters-full-loop"), ("C08", "C08-R6", "reenters-full-loop")])
 M("c07-signal-swallowed-by-native", ["C07"], VM,
-  "            for i, elem in visited_elements():\n                vm._call_callback(callback, [elem, i, arr])\n            return UNDEFINED\n",
-  "            for i, elem in visited_elements():\n                try:\n                    vm._call_callback(callback, [elem, i, arr])\n                except Exception:\n                    break\n            return UNDEFINED\n",
+  "            for i, elem in visited_elements():\n                vm._call_callback(callback, [elem, i, arr], this_arg)\n            return UNDEFINED\n",
+  "            for i, elem in visited_elements():\n                try:\n                    vm._call_callback(callback, [elem, i, arr], this_arg)\n                except Exception:\n                    break\n            return UNDEFINED\n",
   [("C07", "C07-R3c", "forEach_fn")])
 M("c04-signal-not-caught-by-wrapper", ["C04", "C07"], VM,
   "        except _PendingThrow as pending:\n            # A callback run by a native threw past it: the native is unwound,\n            # look for the handler again from this run loop\n            self._throw(pending.value)\n",
@@ -572,7 +572,7 @@ M("c04-signal-pop-not-in-finally", ["C04", "C07"], VM,
   [("C04", "C04-R1", "_PendingThrow"), ("C07", "C07-R3c", "contained")])
 T("t-run-opcode-inlined-in-execute", ["C01", "C02", "C07"], VM,
   "            self._run_opcode(op, arg, frame)\n\n            # Check if frame was popped (return)",
-  "            try:\n                self._execute_opcode(op, arg, frame)\n            except _PendingThrow as pending:\n                self._throw(pending.value)\n            except JSTypeError as e:\n                self._handle_python_exception(\"TypeError\", str(e))\n            except JSReferenceError as e:\n                self._handle_python_exception(\"ReferenceError\", str(e))\n            except JSRangeError as e:\n                self._handle_python_exception(\"RangeError\", str(e))\n            except (TimeLimitError, MemoryLimitError):\n                raise\n            except JSError as e:\n                if not self.exception_handlers:\n                    raise\n                self._handle_python_exception(e.name, e.message)\n\n            # Check if frame was popped (return)")
+  "            try:\n                self._execute_opcode(op, arg, frame)\n            except _PendingThrow as pending:\n                self._throw(pending.value)\n            except JSTypeError as e:\n                self._handle_python_exception(\"TypeError\", str(e))\n            except JSReferenceError as e:\n                self._handle_python_exception(\"ReferenceError\", str(e))\n            except JSRangeError as e:\n                self._handle_python_exception(\"RangeError\", str(e))\n            except (TimeLimitError, MemoryLimitError):\n                raise\n            except JSError as e:\n                if not self.exception_handlers:\n                    raise\n                if hasattr(e, \"thrown\"):\n                    self._throw(e.thrown)\n                else:\n                    self._handle_python_exception(e.name, e.message)\n\n            # Check if frame was popped (return)")
 
 M("c10-compile-budget-dropped", ["C10"], RC,
   "        self.nodes_compiled += 1\n        if self.nodes_compiled > self.MAX_PROGRAM_SIZE:\n            raise RegExpError(\"Regular expression too large\")\n", "",
@@ -1129,8 +1129,8 @@ M("c17-buffer-remainder-ignored", ["C17"], CX,
   "                    if (buffer.byteLength - byte_offset) % element_size:\n", "                    if False:\n",
   [("C17", "C17-R22", "constructor_fn")], note="fix 2188f84 reverted")
 M("c17-foreach-live-iteration", ["C17", "C04"], VM,
-  "            for i, elem in visited_elements():\n                vm._call_callback(callback, [elem, i, arr])\n            return UNDEFINED\n",
-  "            for i, elem in enumerate(arr._elements):\n                vm._call_callback(callback, [elem, i, arr])\n            return UNDEFINED\n",
+  "            for i, elem in visited_elements():\n                vm._call_callback(callback, [elem, i, arr], this_arg)\n            return UNDEFINED\n",
+  "            for i, elem in enumerate(arr._elements):\n                vm._call_callback(callback, [elem, i, arr], this_arg)\n            return UNDEFINED\n",
   [("C17", "C17-R24", "forEach_fn"), ("C04", "C04-R14", "forEach_fn")], note="fix 1e3d431 reverted for forEach: the loop asks the live list for its next element")
 M("c17-sort-in-place", ["C17", "C04"], VM,
   "            arr._elements[:] = sorted(arr._elements, key=cmp_to_key(compare_fn))\n", "            arr._elements.sort(key=cmp_to_key(compare_fn))\n",
@@ -1342,3 +1342,15 @@ S("seed-C03-h", ["C03"], "seeded/C03-h/patch.diff", [("C03", "C03-R11", "_get_so
 TP("t-thrown-values-arrive-unstamped", ALL_PROPS, "selftest/patches/t-thrown-values-arrive-unstamped.diff", note="the same change with one spelling of nothing (repaired C03-h)")
 S("seed-C19-h", ["C19"], "seeded/C19-h/patch.diff", [("C19", "C19-R10", "_JSON_ESCAPES")], note="own JSON escape table: an update over all of range(0x20) overwrites the five short escapes", silent=("C12", "C15"))
 TP("t-json-quote-table", ALL_PROPS, "selftest/patches/t-json-quote-table.diff", note="the same table built in the right order (repaired C19-h)")
+M("c07-nested-throw-value-dropped", ["C07"], VM,
+  "            error.thrown = exc\n", "",
+  [("C07", "C07-R11", "carries-value")], note="fix 5f2ee5c reverted on the raising side")
+M("c07-nested-throw-rebuilt", ["C07"], VM,
+  "            if hasattr(e, \"thrown\"):\n                # What a nested evaluation threw and did not catch: the value\n                # itself goes on to the handler, not an error made from its text\n                self._throw(e.thrown)\n            else:\n                self._handle_python_exception(e.name, e.message)\n", "            self._handle_python_exception(e.name, e.message)\n",
+  [("C07", "C07-R11", "rethrows-value")], note="fix 5f2ee5c reverted on the receiving side")
+M("c17-reduce-initial-by-value", ["C17"], VM,
+  "            no_initial = len(args) < 2\n", "            no_initial = len(args) < 2 or args[1] is UNDEFINED\n",
+  [("C17", "C17-R26", "initial-value-by-count")], count=2, note="fix 1be946b reverted for reduce/reduceRight")
+M("c17-iteration-this-dropped", ["C17"], VM,
+  "vm._call_callback(callback, [elem, i, arr], this_arg)", "vm._call_callback(callback, [elem, i, arr])",
+  [("C17", "C17-R26", "this-argument")], count=7, note="fix 1be946b reverted for thisArg")
